@@ -4,6 +4,7 @@ import (
 	"context"
 	"database/sql"
 	"database/sql/driver"
+	"errors"
 	"io"
 	"strings"
 	"sync"
@@ -20,6 +21,38 @@ type Recorder struct {
 	mu      sync.Mutex
 	Queries []string
 	Answer  Answer
+	// Tx, when set, makes the driver keep what a transaction wrote apart until its COMMIT succeeds, and lets one
+	// driver-level step of the transaction fail.
+	Tx *TxScript
+}
+
+// TxScript follows the driver-level steps of transactions (begin, prepare, exec-row, exec-flush, stmt-close,
+// commit, rollback), fails the FailAt-th of them (0-based; negative: none) and keeps the rows of prepared
+// statements: Committed holds those whose transaction's COMMIT went through, nothing else.
+type TxScript struct {
+	mu        sync.Mutex
+	FailAt    int
+	Steps     []string
+	pending   [][]driver.Value
+	Committed [][]driver.Value
+}
+
+// ErrInjected is what a failing step answers.
+var ErrInjected = errors.New("injected database failure (connection lost)")
+
+func (t *TxScript) step(name string) error {
+	if t == nil {
+		return nil
+	}
+	t.mu.Lock()
+	defer t.mu.Unlock()
+	n := len(t.Steps)
+	t.Steps = append(t.Steps, name)
+	if n == t.FailAt {
+		t.Steps[n] = name + " FAILS"
+		return ErrInjected
+	}
+	return nil
 }
 
 func (r *Recorder) record(q string) {
@@ -47,11 +80,19 @@ func (d drv) Open(string) (driver.Conn, error) { return &conn{r: d.r}, nil }
 
 type conn struct{ r *Recorder }
 
-func (c *conn) Prepare(q string) (driver.Stmt, error) { return &stmt{c: c, q: q}, nil }
-func (c *conn) Close() error                          { return nil }
-func (c *conn) Begin() (driver.Tx, error)             { return tx{}, nil }
+func (c *conn) Prepare(q string) (driver.Stmt, error) {
+	if err := c.r.Tx.step("prepare"); err != nil {
+		return nil, err
+	}
+	return &stmt{c: c, q: q}, nil
+}
+func (c *conn) Close() error              { return nil }
+func (c *conn) Begin() (driver.Tx, error) { return c.BeginTx(context.Background(), driver.TxOptions{}) }
 func (c *conn) BeginTx(context.Context, driver.TxOptions) (driver.Tx, error) {
-	return tx{}, nil
+	if err := c.r.Tx.step("begin"); err != nil {
+		return nil, err
+	}
+	return tx{c.r.Tx}, nil
 }
 func (c *conn) Ping(context.Context) error { return nil }
 
@@ -81,20 +122,56 @@ func (r *Recorder) answer(q string) (driver.Rows, error) {
 	return &rows{cols: []string{"x"}}, nil
 }
 
-type tx struct{}
+type tx struct{ t *TxScript }
 
-func (tx) Commit() error   { return nil }
-func (tx) Rollback() error { return nil }
+func (x tx) Commit() error {
+	if x.t == nil {
+		return nil
+	}
+	err := x.t.step("commit")
+	x.t.mu.Lock()
+	defer x.t.mu.Unlock()
+	if err == nil {
+		x.t.Committed = append(x.t.Committed, x.t.pending...)
+	}
+	x.t.pending = nil // a COMMIT that failed has committed nothing
+	return err
+}
+
+func (x tx) Rollback() error {
+	if x.t == nil {
+		return nil
+	}
+	_ = x.t.step("rollback")
+	x.t.mu.Lock()
+	x.t.pending = nil
+	x.t.mu.Unlock()
+	return nil
+}
 
 type stmt struct {
 	c *conn
 	q string
 }
 
-func (s *stmt) Close() error  { return nil }
+func (s *stmt) Close() error  { return s.c.r.Tx.step("stmt-close") }
 func (s *stmt) NumInput() int { return -1 }
 func (s *stmt) Exec(args []driver.Value) (driver.Result, error) {
 	s.c.r.record(s.q)
+	if t := s.c.r.Tx; t != nil {
+		name := "exec-flush"
+		if len(args) > 0 {
+			name = "exec-row"
+		}
+		if err := t.step(name); err != nil {
+			return nil, err
+		}
+		if len(args) > 0 {
+			t.mu.Lock()
+			t.pending = append(t.pending, append([]driver.Value(nil), args...))
+			t.mu.Unlock()
+		}
+	}
 	return driver.RowsAffected(0), nil
 }
 func (s *stmt) Query(args []driver.Value) (driver.Rows, error) {
